@@ -33,7 +33,8 @@ def cases(tier, seed):
     kmax = 6 if tier == "quick" else 12
     idx = 0
     for k in range(1, kmax + 1):
-        for pat in ("generic", "zero_subdiag", "zero_column", "real_pos_subdiag", "scaled", "int", "arnoldi_like"):
+        for pat in ("generic", "zero_subdiag", "zero_column", "real_pos_subdiag", "scaled", "int", "arnoldi_like", "axis_subdiag", "axis_diag",
+                    "neg_real_subdiag", "tiny_subdiag"):
             for rep in range(1 if tier == "quick" else 4):
                 out.append({"kind": "hess", "cls": "hess:" + pat, "k": k, "pat": pat, "idx": idx, "seed": seed})
                 idx += 1
@@ -160,6 +161,25 @@ def _hess_matrix(rng, k, pat):
             c[pos + 1, pos] = [abs(c[pos + 1, pos, 0]) + 0.1, 0, 0, 0]
         if pat == "arnoldi_like":
             c[k, k - 1] = [1e-9, 0, 0, 0]
+    elif pat == "axis_subdiag":
+        # sub-diagonal entries with exactly-zero components: confined to one axis (pure i, j or k, or real with either sign)
+        for pos in range(k):
+            v = np.zeros(4)
+            v[int(rng.integers(0, 4))] = float(rng.choice([-1.0, 1.0])) * (0.2 + rng.random())
+            c[pos + 1, pos] = v
+    elif pat == "axis_diag":
+        for pos in range(k):
+            v = np.zeros(4)
+            v[int(rng.integers(0, 4))] = float(rng.choice([-1.0, 1.0])) * (0.2 + rng.random())
+            c[pos, pos] = v
+            if rng.random() < 0.5:
+                c[pos, pos] = 0.0
+    elif pat == "neg_real_subdiag":
+        for pos in range(k):
+            c[pos + 1, pos] = [-(abs(c[pos + 1, pos, 0]) + 0.1), 0, 0, 0]
+    elif pat == "tiny_subdiag":
+        for pos in range(k):
+            c[pos + 1, pos] *= 10.0 ** float(rng.choice([-20, -12, -8]))
     elif pat == "scaled":
         c *= 10.0 ** float(rng.choice([-8, -3, 3, 8]))
     elif pat == "int":
